@@ -79,16 +79,43 @@ class C08(Check):
     TIERS = {"quick": {"runs": 480, "budget_s": 50}, "thorough": {"runs": 30000, "budget_s": 900}}
 
     def generate(self, rng: random.Random, r: int, tier: str) -> dict:
-        ws = gen_wire_ws(rng, defs=(2, 5), max_cap=3)
+        ws = gen_wire_ws(rng, defs=(2, 5), max_cap=rng.choice([3, 3, 4, 8]))
         prints = []
         keys = [(ri, di) for ri, r0 in enumerate(ws["roots"]) for di, _d in enumerate(r0["defs"])]
-        for _ in range(rng.randint(1, 4)):
+        for _ in range(rng.randint(2, 6)):
             ri, di = rng.choice(keys)
             d = ws["roots"][ri]["defs"][di]
             si = rng.randrange(len(d["secs"]))
-            n = len(d["secs"][si]["items"])
-            prints.append([ri, di, si, n if d["secs"][si].get("union") else rng.randint(0, n), rng.choice(["offset", "offset", "bl", "extent"]), rng.randrange(1 << 20)])
-        return {"ws": ws, "prints": prints, "value_seed": rng.randrange(1 << 30), "bases": [sorted({rng.choice([0, 1, 3, 8, 13, 16, 64, 71]) for _ in range(rng.randint(1, 3))}) for _ in range(3)]}
+            items = d["secs"][si]["items"]
+            n = len(items)
+            pos = n if d["secs"][si].get("union") else rng.randint(0, n)
+            if not d["secs"][si].get("union") and rng.random() < 0.5:
+                # prefer the point right after a nested composite / array field (where inter-field padding was applied)
+                after = [i + 1 for i, it in enumerate(items) if it[0] == "f" and it[1][0] in ("ref", "arr", "var")]
+                if after:
+                    pos = rng.choice(after)
+            prints.append([ri, di, si, pos, rng.choice(["offset", "offset", "offset", "bl", "extent"]), rng.randrange(1 << 20)])
+        # a directed skeleton: a variable-length array of sub-byte elements whose shortest and longest representations are
+        # byte-aligned (interior ones are not), followed by a nested composite, with _offset_ queried right after it
+        root = ws["roots"][0]
+        msgs = [d for d in root["defs"] if len(d["secs"]) == 1 and not d.get("dep")]
+        if msgs and rng.random() < 0.5 and (root["name"] + ".Off").lower() not in {d["name"].lower() for d in root["defs"]}:
+            b, cap = rng.choice([(1, 8), (2, 4), (4, 2), (12, 2), (3, 8), (1, 16)])
+            m = rng.choice(msgs)
+            ref = ["ref", m["name"], m["ver"][0], m["ver"][1]]
+            items = [["f", ["var", ["u", b, "s"] if b > 1 else ["bool"], cap], "flags"], ["f", rng.choice([ref, ["arr", ref, 2], ["var", ref, 2]]), "inner"], ["f", ["u", 5, "t"], "tail"]]
+            if rng.random() < 0.4:
+                items.insert(0, ["f", ["u", 8, "s"], "head"])
+            root["defs"].append({"name": root["name"] + ".Off", "ver": [1, 0], "port": None, "ext": "dsdl", "dep": False,
+                                 "secs": [{"union": False, "hdr": None, "items": items, "seal": "sealed"}]})
+            ri, di = 0, len(root["defs"]) - 1
+            for pos in range(1, len(items) + 1):
+                prints.append([ri, di, 0, pos, "offset", rng.randrange(1 << 20)])
+        # base offset sets; one pair is *approximately equal* (same min, max and residues mod 32, different members)
+        bases = [sorted({rng.choice([0, 1, 3, 8, 13, 16, 32, 64, 71]) for _ in range(rng.randint(1, 3))}) for _ in range(2)]
+        lo = rng.choice([0, 8, 3])
+        bases += [[lo, lo + 64], [lo, lo + 32, lo + 64]] if rng.random() < 0.5 else [[lo, lo + 32, lo + 64], [lo, lo + 64]]
+        return {"ws": ws, "prints": prints, "value_seed": rng.randrange(1 << 30), "bases": bases}
 
     def execute(self, scn: dict) -> Outcome:
         from ..worlds.workspace import World
@@ -208,7 +235,7 @@ class C08(Check):
                         if offs.min > min(observed[path]) or offs.max < max(observed[path]):
                             out.fail("C08.sound", "%s[%d]: field %s was written at bits %s, outside the offset set [%d..%d]" % (k, si, path, sorted(observed[path])[:8], offs.min, offs.max), "sound")
                             continue
-                        small = (offs.max - offs.min) <= 4096
+                        small = (offs.max - offs.min) <= 4096 and sec.node().work() <= EXPLICIT and sec.inner.work() <= EXPLICIT
                         if small:
                             es = set(offs)
                             if not observed[path] <= es:
